@@ -135,6 +135,27 @@ def run(ctx):
         if lines and rng.random() < 0.2:
             data = data[:-1]
         cases.append((rng.choice(SPECS), rng.choice(["\t", " "]), data, rng.choice(["pipe", "pipe", "file", "gz", "bz2", "xz"])))
+    # lines that differ only in the last 1-3 bytes, behind a byte >= 0x80 (every line length modulo 8, every position of the high byte in the
+    # last word): different keys for the whole line and for a field
+    for L in (4, 5, 6, 7, 12, 13, 14, 15, 21, 23):
+        for hi in (0x80, 0xA9, 0xFF):
+            base_ = bytearray(97 + (i * 3) % 26 for i in range(L))
+            for pos in range(L - L % 8, L):
+                fam = []
+                for tail_ in (b"x", b"y", b"\x00", b"\xfe"):
+                    b_ = bytearray(base_)
+                    b_[pos] = hi
+                    for q in range(pos + 1, L):
+                        b_[q] = tail_[0]
+                    fam.append(bytes(b_))
+                fam = list(dict.fromkeys(fam))
+                if len(fam) > 1:
+                    data = b"".join(l + b"\n" for l in fam + fam[:2])
+                    cases.append((None, "\t", data, "pipe"))
+                    cases.append(("2", "\t", b"".join(b"k%d\t" % j + l + b"\n" for j, l in enumerate(fam + fam[:2])), "pipe"))
+    pr_ = pvlib.low32_pair(1, b"line")
+    if pr_:
+        cases.append((None, "\t", pr_[0] + b"\n" + pr_[1] + b"\n" + pr_[0] + b"\n", "pipe"))
     ops = [model_op(s, d, x) for (s, d, x, b) in cases]
     model = pvlib.run_lines(pvlib.PVDRIVER, ops)
     spec = pvlib.run_lines(pvlib.PVDRIVER, [o.replace("tools.dedupe", "tools.spec.dedupe") for o in ops])
